@@ -118,6 +118,9 @@ def run(tier: str) -> int:
                                     inputs=profiles.inputs_exhaustive(4, 5, cap_q=160, cap_t=700, alpha=[97, 98, 99, 10]), per_tu=1,
                                     configs=profiles.amr_configs(ams=((1, 'r'),), eols=('lf_crlf', 'cr'), lazies=(0, 1)),
                                     ctx_names=['top', 'seq-tail', 'seq-head']),
+        # every leaf rule: each one's bump_in_this_line / bump_to_next_line shortcut, under three eol policies, eager and lazy
+        profiles.atoms_profile('atoms', ORACLES, cap_q=70, cap_t=700, per_tu=3, exclude=('bol',),   # bol needs column(): no lazy inputs
+                               configs=profiles.amr_configs(ams=((1, 'r'),), eols=('lf_crlf', 'cr', 'crlf'), lazies=(0, 1))),
     ]
 
     def extra(v, cov, rng):
